@@ -72,6 +72,31 @@ This discharges the hypothesis `domOK` makes about the `repr` of a `str`. -/
 theorem str_repr_roundtrips (pr : Char → Bool) (s : Str) : decodeStrLit (pyReprStr pr s) = some s :=
   decodeStrLit_pyReprStr pr s
 
+/-- **float_repr_evaluates_back**: for every value of the binary64 format
+(zeros of both signs, subnormal and normal numbers, ±inf, NaN) the token
+`repr(x)` / the argument of `float("…")` is read back as exactly `x` - C05's
+`float_repr_rt` at the place where the code serializer relies on it. This
+discharges what `domOK` asks of a float (`r = x.repr`, `x` canonical). -/
+theorem float_repr_evaluates_back (x : Xs.Conv.F64) (hx : f64Canonical x = true) :
+    readFloat x.repr = some x :=
+  Props.C05.float_repr_rt Py.Env.ascii x (canonical_of_B hx)
+
+/-- **decimal_repr_evaluates_back**: for every `Decimal` (any sign, coefficient
+and exponent - `1E+3`, `-0E-7`, `0.000001`, `1.50` -, the infinities, quiet and
+signaling NaN with payload) `repr(d)` = `Decimal('<str(d)>')` is read back as
+exactly `d`: the string literal denotes `str(d)` and `Decimal(str)` (C05's
+`decimalParse`) recovers sign, digits and exponent. -/
+theorem decimal_repr_evaluates_back (d : Xs.Conv.Dec) : readDecimal (decRepr d) = some d :=
+  readDecimal_decRepr d
+
+theorem decimal_str_parse (e : Py.Env) (d : Xs.Conv.Dec) : Xs.Conv.decimalParse e (decStr d) = some d :=
+  decimalParse_decStr e d
+
+example : f64Canonical (.fin true 6755399441055744 (-52)) = true ∧
+    (Xs.Conv.F64.fin true 6755399441055744 (-52)).repr = cs!"-1.5" ∧
+    decRepr (.fin true 0 (-7)) = cs!"Decimal('-0E-7')" ∧ decRepr (.fin false 12345 (-10)) = cs!"Decimal('0.0000012345')" := by
+  decide +kernel
+
 /-- **bytes_repr_roundtrips**: likewise for `repr(b)` of any bytes value -/
 theorem bytes_repr_roundtrips (bs : List Nat) (h : ∀ b ∈ bs, b < 256) :
     decodeBytesLit (pyReprBytes bs) = some bs :=
@@ -228,7 +253,8 @@ def W1 : World := [
 
 def good : Val :=
   .model outerR [
-    .list [.model deepR [.list [.float (.inf false) cs!"inf", .opaque decR [cs!"Decimal"] cs!"('1.50')" (some (.fin 3 2))]],
+    .list [.model deepR [.list [.float (.inf false) cs!"inf", .decimal (.fin false 150 (-2)) cs!"Decimal('1.50')", .float (.fin true 6755399441055744 (-52)) cs!"-1.5",
+             .decimal (.fin true 1 3) cs!"Decimal('-1E+3')"]],
            .model in2R [.dict [(.enum topR cs!"B", .qname cs!"{a\\b}\"x")]]],
     .tuple [.enum innerR cs!"A", .dict [(.tuple [.int 1, .int 2], .set true [.tuple [.int 3], .none]), (.int 0, .set false [])]], en, .bool false]
 
@@ -323,7 +349,7 @@ theorem not_codeRoundTrips_init_false : ¬ CodeRoundTrips := fun h =>
 `decimal.InvalidOperation` and nothing catches it. With a non-numeric default
 (`None`) the value is rendered and evaluates back, but then `restored ==
 original` raises in turn (no `==` exists for such a value). -/
-def snan : Val := .opaque decR [cs!"Decimal"] cs!"('sNaN')" (some .snan)
+def snan : Val := .decimal (.nan false true 0) cs!"Decimal('sNaN')"
 def snanWitness : Val := .model outerR [.none, .tuple [], en, snan]
 def snanRendered : Val := .model outerR [snan, .tuple [], en, .int 0]
 
